@@ -665,7 +665,10 @@ COMMON_ASSUMPTIONS = [
     "smbus-pec built without its lookup-table feature (the configuration libmctp uses)",
     "library panics are counted as violations only for the properties that own panic-freedom of that entry point (DESIGN 3.2)",
 ]
-ASSUMPTIONS = {}
+try:
+    ASSUMPTIONS = json.load(open(os.path.join(VERIF, "assumptions.json")))
+except Exception:
+    ASSUMPTIONS = {}
 
 
 def do_replay(path):
